@@ -16,6 +16,11 @@ from .values import *  # noqa
 from .interp import (Unsupported, RaiseEx, zand, zor, znot, zite, zmin, zmax, FuncVal, Frame)
 
 
+class DDict(dict):
+    """collections.defaultdict: a dict whose missing keys are created by `factory` on lookup"""
+    factory = None
+
+
 class IterVal:
     def __init__(self, seq):
         self.seq = seq
@@ -127,6 +132,9 @@ def getitem(I, o, k):
     if isinstance(o, dict):
         hk = hashable(k)
         if hk not in o:
+            if isinstance(o, DDict):
+                o[hk] = I.call(o.factory, [], {})
+                return o[hk]
             I.raise_("KeyError", "dict lookup")
         return o[hk]
     if isinstance(o, Obj):
@@ -204,6 +212,56 @@ def hashable(k):
     raise Unsupported(f"unhashable or symbolic key {type(k).__name__}")
 
 
+def concrete_len(I, n):
+    """the concrete value of a length term when the path condition fixes it (e.g. the cardinality of a singleton)"""
+    if isinstance(n, int):
+        return n
+    t = z3.simplify(to_z3(n))
+    if z3.is_int_value(t):
+        return t.as_long()
+    cands = []
+    if I.path.solver.check() == z3.sat:
+        val = I.path.solver.model().eval(t, model_completion=True)
+        if z3.is_int_value(val) and 0 <= val.as_long() <= 16:
+            cands.append(val.as_long())
+    for c in cands + [c for c in (1, 0, 2, 3) if c not in cands]:
+        if I.path.must(t == c):
+            return c
+    return None
+
+
+class SymKeyDict:
+    """a dict whose keys are (possibly symbolic) ints: an association list; lookup compares keys one by one and
+    branches on the equalities, a miss is a KeyError"""
+
+    def __init__(self, items):
+        self.items = list(items)
+
+    def __vf_getattr__(self, I, name):
+        if name == "keys":
+            return BoundBuiltin(lambda: [k for k, _ in self.items])
+        if name == "values":
+            return BoundBuiltin(lambda: [v for _, v in self.items])
+        if name == "items":
+            return BoundBuiltin(lambda: list(self.items))
+        raise Unsupported(f"dict.{name} on a dict with symbolic keys")
+
+    def __vf_getitem__(self, I, k):
+        for kk, v in self.items:
+            if I.decide(equal(I, k, kk)):
+                return v
+        I.raise_("KeyError", "dict lookup")
+
+    def __vf_len__(self, I):
+        return len(self.items)
+
+    def __vf_iter__(self, I):
+        return [k for k, _ in self.items]
+
+    def __vf_isinstance__(self, I, t):
+        return getattr(t, "name", getattr(t, "dotted", "")).split(".")[-1] in ("dict", "Mapping")
+
+
 def iterate(I, v):
     """Concrete list of the elements (loops are unrolled); symbolic lengths are out of subset."""
     if isinstance(v, IterVal):
@@ -219,9 +277,9 @@ def iterate(I, v):
     if isinstance(v, SymSeq):
         if isinstance(v.length, int):
             return [v.elem(i) for i in range(v.length)]
-        lv = z3.simplify(to_z3(v.length))
-        if z3.is_int_value(lv):
-            return [v.elem(i) for i in range(lv.as_long())]
+        n = concrete_len(I, v.length)
+        if n is not None:
+            return [v.elem(i) for i in range(n)]
         raise Unsupported("iteration over a sequence of symbolic length (needs a loop invariant)")
     if isinstance(v, IntTensorConst):
         return iterate(I, v.values)
@@ -265,8 +323,7 @@ def comprehension(I, elt, gens, kind):
     it = I.eval(g.iter)
     if isinstance(it, IterVal):
         it = it.seq
-    symbolic = isinstance(it, SymSeq) and not isinstance(it.length, int) and \
-        not z3.is_int_value(z3.simplify(to_z3(it.length)))
+    symbolic = isinstance(it, SymSeq) and concrete_len(I, it.length) is None
     if not symbolic:
         out = []
         # comprehensions have their own scope: emulate with a child frame
@@ -1100,6 +1157,17 @@ def make_builtins(I):
         items = iterate(I, x)
         if all(isinstance(i, (int, str)) for i in items):
             return sorted(items)
+        if all(is_intlike(i) for i in items) and len(items) <= 5:
+            # insertion sort that branches on the comparisons (each path fixes one order of the symbolic ints)
+            out = []
+            for it in items:
+                pos = len(out)
+                for j, o in enumerate(out):
+                    if I.decide(to_z3(it) < to_z3(o)):
+                        pos = j
+                        break
+                out.insert(pos, it)
+            return out
         raise Unsupported("sorted over symbolic elements")
 
     def b_frozenset(x=None):
@@ -1185,7 +1253,9 @@ def make_builtins(I):
         "getattr": b_getattr, "hasattr": lambda o, n: _has(I, o, n), "print": lambda *a, **k: None, "id": lambda o: id(o),
         "type": b_type, "str": lambda x="": "<str>" if not isinstance(x, str) else x, "repr": lambda x: "<repr>",
         "callable": lambda x: isinstance(x, (FuncVal, ClassVal, Builtin, PartialVal, ExternalVal)),
-        "issubclass": lambda a, b: I.repo.is_subclass(a.ci, b.ci) if isinstance(a, ClassVal) and isinstance(b, ClassVal) else False,
+        "issubclass": lambda a, b: I.repo.is_subclass(a.ci, b.ci) if isinstance(a, ClassVal) and isinstance(b, ClassVal) else (
+            (a.dotted, b.dotted) in {("numpy.float64", "numpy.floating"), ("numpy.int64", "numpy.integer"), ("numpy.complex128", "numpy.complexfloating")}
+            if isinstance(a, ExternalVal) and isinstance(b, ExternalVal) else False),
         "map": lambda f, *xs: [I.call(f, list(a), {}) for a in zip(*[iterate(I, x) for x in xs])],
         "hash": lambda o: id(o), "complex": lambda *a: complex(*a),
         "filter": lambda f, xs: [x for x in iterate(I, xs) if I.decide(I.call(f, [x], {}) if f is not None else x)],
